@@ -200,6 +200,24 @@ def failure_scenarios():
                  oracle={"f": [{"error": "Boom"}, {"ok": 1}]}))
     S.append(scn("par-timeout", SM("P", P=Par([SM("A", A=T("f", TimeoutSeconds=2, End=True)), SM("B", B=T("g", End=True))], End=True)),
                  oracle={"f": [{"silent": True}]}))
+    # a fan-out with a Catch in which BOTH branches fail: the second failure arrives after the first was caught
+    S.append(scn("par-catch-both-fail", SM("P", P=Par([SM("A", A=T("f", End=True)), SM("B", B=T("g", End=True))],
+                                                       Catch=[{"ErrorEquals": ["States.ALL"], "Next": "R", "ResultPath": "$.err"}], Next="Z"),
+                                            Z=P(End=True), R=P(End=True)),
+                 oracle={"f": [{"error": "Boom1"}], "g": [{"error": "Boom2"}]}))
+    S.append(scn("map-catch-two-fail", SM("M", M=Mp(SM("A", A=T("f", End=True)), Catch=[{"ErrorEquals": ["States.ALL"], "Next": "R", "ResultPath": "$.err"}], ItemsPath="$.items", Next="Z"),
+                                           Z=P(End=True), R=P(End=True)), inputs=({"items": [1, 2, 3]},),
+                 oracle={"f": [{"error": "Boom1"}, {"ok": 2}, {"error": "Boom3"}]}))
+    # synchronous child executions cut short by the parent's Task timeout: blocked in a Task after a Wait that was over at
+    # once (its cancellation handle must not outlive it), blocked in a Wait
+    def parent(child, timeout):
+        return SM("K", K={"Type": "Task", "Resource": "arn:aws:states:::states:startExecution.sync", "TimeoutSeconds": timeout,
+                          "Parameters": {"StateMachineArn": "arn:aws:states:local:0123456789:stateMachine:" + child, "Input": {"n": 1}, "Name": "kid"},
+                          "ResultPath": "$.r", "Next": "P2"}, P2=P(End=True))
+    S.append(scn("child-elapsed-wait-task-parent-timeout", parent("kidm", 2), oracle={"h": [{"silent": True}]}, workers=["h"],
+                 extra_machines=[{"name": "kidm", "type": "STANDARD", "asl": chain(("CW", Wt(0)), ("C1", T("h")), ("C2", P()))}]))
+    S.append(scn("child-wait-parent-timeout", parent("kidw", 2),
+                 extra_machines=[{"name": "kidw", "type": "STANDARD", "asl": chain(("CW", Wt(10)), ("C2", P()))}]))
     # a deferred empty Map completing after its fan-out has failed (F18 territory: FAILED, then SUCCEEDED)
     S.append(scn("par-emptymap-peer-fails", SM("P", P=Par([SM("M", M=Mp(SM("I", I=P(End=True)), ItemsPath="$.items", End=True)),
                                                              SM("F", F=P(OutputPath="$.nope", End=True))], End=True)), inputs=({"items": []},)))
